@@ -382,7 +382,17 @@ pub fn run_parent<P: Property>(args: &ParentArgs, out: &mut dyn FnMut(String)) -
                         replay_samples.push(case);
                     }
                 }
-                ChildEnd::Exit(1, _) | ChildEnd::Signal(_) => {
+                ChildEnd::Signal(_) => {
+                    // the replay killed its process: a listed finding of that kind, or a violation
+                    let id = serde_json::from_value::<P::Case>(case.clone()).ok().and_then(|c| P::known_death(&c));
+                    match id.and_then(|id| known.iter().find(|k| k.id == id && k.property == P::ID && k.status == "known")) {
+                        Some(k) => {
+                            known_lines.insert(format!("KNOWN-FINDING: property={} {} [{}]", P::ID, k.what, k.id));
+                        }
+                        None => violations.push(f.display().to_string()),
+                    }
+                }
+                ChildEnd::Exit(1, _) => {
                     violations.push(f.display().to_string());
                 }
                 _ => {
@@ -616,6 +626,16 @@ pub fn run_parent<P: Property>(args: &ParentArgs, out: &mut dyn FnMut(String)) -
         exit = 1;
     }
     exit
+}
+
+/// The KNOWN-FINDING line for a replay file whose process died, when the case is a listed death witness.
+pub fn known_death_line<P: Property>(path: &str, root: &str) -> Option<String> {
+    let v: serde_json::Value = serde_json::from_slice(&std::fs::read(path).ok()?).ok()?;
+    let case = v.get("case").cloned()?;
+    let id = P::known_death(&serde_json::from_value::<P::Case>(case).ok()?)?;
+    let known = load_known(root);
+    let k = known.iter().find(|k| k.id == id && k.property == P::ID && k.status == "known")?;
+    Some(format!("KNOWN-FINDING: property={} {} [{}]", P::ID, k.what, k.id))
 }
 
 pub enum ChildEnd {
